@@ -27,6 +27,12 @@ fn main() {
         ("C20", "replay") => c20_run::replay(&a),
         ("C20", "exec") => c20_run::exec_one(&a),
         ("UTIL", "poolcheck") => poolcheck::run(),
+        ("C18", "show") => {
+            // debug helper: prints the generated history of run --runs N (VERIF_SEED --seed)
+            let s_r = simkit::rng::mix(&[a.seed, simkit::rng::name_hash("C18"), a.runs]);
+            println!("{}", serde_json::to_string(&c18::gen_history(s_r)).unwrap());
+            0
+        }
         ("UTIL", "merge-hashes") => merge_hashes(&a),
         _ => {
             eprintln!("unknown engine/mode {} {}", a.prop, a.mode);
